@@ -215,6 +215,11 @@ func (a *Analysis) step(st *State, fr *frame, in ssa.Instruction) {
 		a.bind(st, fr, x, mkAt(xe, ie, x.Type()))
 	case *ssa.IndexAddr:
 		xe, ie := a.exprOf(st, fr, x.X), a.exprOf(st, fr, x.Index)
+		if pt, ok := x.X.Type().Underlying().(*types.Pointer); ok {
+			if at, ok := pt.Elem().Underlying().(*types.Array); ok {
+				xe = mk("arr", x.X.Type(), "", at.Len(), xe)
+			}
+		}
 		a.bind(st, fr, x, mkIndexAddr(xe, ie, x.Type()))
 	case *ssa.Slice:
 		xe := a.exprOf(st, fr, x.X)
@@ -280,6 +285,7 @@ func (a *Analysis) step(st *State, fr *frame, in ssa.Instruction) {
 	case *ssa.TypeAssert:
 		xe := a.exprOf(st, fr, x.X)
 		tk := typeKey(x.AssertedType)
+		st.event("typeassert:" + tk)
 		if x.CommaOk {
 			a.bind(st, fr, x, mk("typeassert2", x.Type(), tk, 0, xe))
 		} else {
@@ -783,23 +789,41 @@ func (a *Analysis) inline(st *State, fr *frame, c *ssa.Call, callee *ssa.Functio
 // callEffects applies the memory effects of a call that is not modelled.
 func (a *Analysis) callEffects(st *State, fr *frame, c ssa.CallInstruction, async bool) {
 	cc := c.Common()
-	// arguments that point into local allocs escape and are forgotten
+	mods := a.P.modSetOfCall(c)
+	known := a.P.staticLocalCallee(c) != nil && !async
+	forget := func(r *Expr) {
+		if r == nil || r.Op != "alloc" {
+			return
+		}
+		if !known {
+			st.escape(r, true)
+			return
+		}
+		// local callee with a known mod-set: forget only what it may write
+		for k := range st.mem {
+			me := st.memE[k]
+			if me == nil || !strings.Contains(k, r.Key) {
+				continue
+			}
+			if mods[aliasClass(me)] || me.Op == "alloc" && len(mods) > 0 && false {
+				delete(st.mem, k)
+				delete(st.memE, k)
+			}
+		}
+	}
+	// arguments that point into local allocs
 	for _, x := range cc.Args {
 		switch x.Type().Underlying().(type) {
 		case *types.Pointer, *types.Slice:
-			if r := rootOf2(a.exprOf(st, fr, x)); r != nil && (r.Op == "alloc") {
-				st.escape(r, true)
-			}
+			forget(rootOf2(a.exprOf(st, fr, x)))
 		}
 	}
 	if mc, ok := cc.Value.(*ssa.MakeClosure); ok {
 		for _, b := range mc.Bindings {
-			if r := rootOf2(a.exprOf(st, fr, b)); r != nil && r.Op == "alloc" {
-				st.escape(r, true)
-			}
+			forget(rootOf2(a.exprOf(st, fr, b)))
 		}
 	}
-	for cls := range a.P.modSetOfCall(c) {
+	for cls := range mods {
 		st.killClass(cls, siteTok(fr, c))
 	}
 }
@@ -895,6 +919,12 @@ func (a *Analysis) flow(st *State, from, to *ssa.BasicBlock) *State {
 		}
 		pbs = append(pbs, b)
 	}
+	loopHead := false
+	for _, pr := range to.Preds {
+		if to.Dominates(pr) {
+			loopHead = true
+		}
+	}
 	for _, b := range pbs {
 		leaf := mkLeaf("phi", a.leafName(b.phi, ""), b.phi.Type())
 		n.killLeaf(leaf.Key)
@@ -902,6 +932,12 @@ func (a *Analysis) flow(st *State, from, to *ssa.BasicBlock) *State {
 	for _, b := range pbs {
 		leaf := mkLeaf("phi", a.leafName(b.phi, ""), b.phi.Type())
 		t := b.phi.Type()
+		if !loopHead && !isFlagPhi(b.phi, nil) {
+			// plain merge: keep the incoming term; states that disagree are
+			// generalised to the phi leaf when they are joined (State.join)
+			n.env[b.phi] = b.e
+			continue
+		}
 		if isBoolType(t) || intTypeInfo(t).ok {
 			if c, ok := b.r.IsConst(); ok && isFlagPhi(b.phi, nil) {
 				n.env[b.phi] = mkConst(c, t)
